@@ -25,7 +25,7 @@ def area_world(rng, spherical=None, cross=None, nfeat=None, temp_allow=("uniform
         else:
             c = None
         if plumes and rng.random() < plumes:
-            w["features"].append(g.plume("f%d" % i, sph, centre=c))
+            w["features"].append(g.plume("f%d" % i, sph, centre=c, random_models=random_models))
         else:
             w["features"].append(g.area_feature("f%d" % i, sph, centre=c, temp_allow=temp_allow, random_models=random_models))
     return w, sph
